@@ -508,14 +508,19 @@ def cap_cases():
     # the library's own MallocFrameBuffer (64-bit size computation): sizes up to 65535 x 65535 x 4
     asan = "detect_leaks=1:abort_on_error=0:allocator_may_return_null=1:max_allocation_size_mb=200"
     for f2 in (F["bgr233"], F["rgb888le"]):
-        head0 = ["client %s enc=raw cursor=0 fbmode=0" % " ".join(str(v) for v in f2.tuple()), "seg 0"]
+        head0 = ["client %s enc=raw+zrle cursor=0 fbmode=0" % " ".join(str(v) for v in f2.tuple()), "seg 0"]
         for (nw, nh) in [(0, 0), (1, 1), (4096, 2048), (65535, 65535), (46341, 46341), (32768, 32768), (65535, 16385), (16384, 65535), (65535, 1)]:
             if 128 << 20 < nw * nh * f2.bytespp <= 300 << 20:
                 continue
+            # after the (possibly refused) resize: a ZRLE tile, which is written without CheckRect / NULL test, then Raw
+            tile = b"\x01" + f2.cpixel(b"\x15" * f2.bytespp)
+            zc = zlib.compressobj(1)
+            tz = zc.compress(tile) + zc.flush(zlib.Z_SYNC_FLUSH)
             m = E.fbu([struct.pack(">HHHHI", 0, 0, nw, nh, E.ENC["newfbsize"])]) + \
+                (E.fbu([struct.pack(">HHHHI", 0, 0, 1, 1, 16) + struct.pack(">I", len(tz)) + tz]) if nw * nh else b"") + \
                 E.fbu([struct.pack(">HHHHI", max(0, nw - 1), max(0, nh - 1), min(nw, 1), min(nh, 1), 0) + b"\x07" * (min(nw, 1) * min(nh, 1) * f2.bytespp)])
-            out.append({"script": build_script(head0, "eof", hs, [], m), "kind": "guard", "expect_false": None, "tag": "guard:malloc-fb",
-                        "env": {"ASAN_OPTIONS": asan}})
+            out.append({"script": build_script(head0, "eof", hs, [], m, zlines=["z 6 %s %s" % (hexs(tz), hexs(tile))] if nw * nh else []),
+                        "kind": "guard", "expect_false": None, "tag": "guard:malloc-fb", "env": {"ASAN_OPTIONS": asan}})
             h2 = E.handshake(fmt, nw, nh, b"g")
             out.append({"script": build_script(head0, "eof", h2, [], b""), "kind": "guard", "expect_false": None, "tag": "guard:malloc-fb",
                         "env": {"ASAN_OPTIONS": asan}})
